@@ -765,7 +765,11 @@ class ArrayMixin(metaclass=abc.ABCMeta):
         #   integer, dimension(3:5) :: b
         # would make it "not equal".
         if self.is_lower_bound(index):
-            if self.is_same_array(array2) and array2.is_lower_bound(index2):
+            # The lower bounds of the same dimension of the same array are
+            # equal. (Two different dimensions of an array can be declared
+            # with different lower bounds, so these are compared below.)
+            if (index == index2 and self.is_same_array(array2) and
+                    array2.is_lower_bound(index2)):
                 return True
             if not array1_type:
                 return False
